@@ -192,6 +192,8 @@ class NF:
             return a
         keys = {"integer": BOUND_KEYS, "number": BOUND_KEYS, "string": STR_KEYS, "array": ARR_KEYS}.get(ts[0], ())
         add = {k: v for k, v in sib.items() if k in keys and k not in ar}
+        if add and isinstance(a, dict) and "$ref" in a:
+            add["x-sibling-on-ref"] = True  # (the generator does not merge sibling keywords into a `$ref` member)
         return {**ar, **add} if add else a
 
     def nf(self, s: Any, depth: int = 0) -> dict:
@@ -265,6 +267,8 @@ class NF:
             for k, v in (("minimum", mn), ("maximum", mx), ("exclusiveMinimum", emn), ("exclusiveMaximum", emx), ("multipleOf", s.get("multipleOf"))):
                 if v is not None:
                     n[k] = _num(v)
+            if s.get("x-sibling-on-ref"):
+                n["sibling_on_ref"] = True
             return n
         if t == "string":
             n = {"k": "scalar", "type": t, "null": null}
@@ -273,6 +277,8 @@ class NF:
                     n[k] = s[k]
             if n.get("minLength") == 0:
                 del n["minLength"]
+            if s.get("x-sibling-on-ref"):
+                n["sibling_on_ref"] = True
             return n
         if t == "boolean":
             return {"k": "scalar", "type": t, "null": null}
